@@ -130,7 +130,12 @@ func seqScenario(min, max uint16, nthreads, ncalls int) c29sc {
 	}
 }
 
-func storeScenario(name string, progs [][]storeIn) c29sc {
+func storeScenario(name string, progs [][]storeIn) c29sc { return storeScenarioX(name, false, progs) }
+
+// live: the stored transactions behave like the project's: when one finishes it removes itself from the store by
+// its key (its own atomic map operation, recorded as such in the history).  Storing over a live transaction must
+// still return (the store may finish the transaction it replaces) and every single operation stays atomic.
+func storeScenarioX(name string, live bool, progs [][]storeIn) c29sc {
 	return c29sc{
 		name:  "store:" + name,
 		model: storeModel(),
@@ -140,7 +145,11 @@ func storeScenario(name string, progs [][]storeIn) c29sc {
 			get := func(id int) *dummyTx {
 				if txs[id] == nil {
 					// a real (finished-able) transaction: storing over an unfinished one may finish it
-					txs[id] = &dummyTx{Transaction: transactions.NewTransactionBase(func() {}), id: id}
+					finally := func() {}
+					if live {
+						finally = func() { h.call(100+id, storeIn{op: "delete"}, func() any { ts.Delete(7); return storeOut{} }) }
+					}
+					txs[id] = &dummyTx{Transaction: transactions.NewTransactionBase(finally), id: id}
 				}
 				return txs[id]
 			}
@@ -246,6 +255,7 @@ func c29Scenarios() []c29sc {
 		storeScenario("type:store,get|store,delete|get,get", [][]storeIn{{S("storeT", 1), S("getT", 0)}, {S("storeT", 2), S("deleteT", 0)}, {S("getT", 0), S("getT", 0)}}),
 		storeScenario("mixed:store,getT|storeT,get|delete,deleteT", [][]storeIn{{S("store", 1), S("getT", 0)}, {S("storeT", 2), S("get", 0)}, {S("delete", 0), S("deleteT", 0)}}),
 		storeScenario("id:store,store|get,delete|get,store", [][]storeIn{{S("store", 1), S("store", 3)}, {S("get", 0), S("delete", 0)}, {S("get", 0), S("store", 2)}}),
+		storeScenarioX("live:store,store|get,get|store,get", true, [][]storeIn{{S("store", 1), S("store", 3)}, {S("get", 0), S("get", 0)}, {S("store", 2), S("get", 0)}}),
 		stateScenario(),
 	)
 	return out
@@ -317,7 +327,7 @@ func TestC29(t *testing.T) {
 	explore.RunScenarios(rep, scs, explore.ScenarioOpts{Test: "TestC29", QuickBound: 3, ThoroughFrom: 3, ThoroughMax: 6, Unbounded: true,
 		QuickBudget: 60 * time.Second, ThoroughBudge: 8 * time.Minute})
 	rep.Coverage["sequential_full_range_calls"] = n
-	rep.Coverage["rule"] = "all interleavings within the preemption bound of 2-3 threads x 2 calls on one IDSequence (all ranges 0<=min<=max<=3 and 0xFFFE..0xFFFF), on one TransactionStore key per key space, and on one ClientState; points at the shim mutex/atomic and at the guarded fields; every call/return history checked for linearizability with porcupine against a sequential reference; plus the full uint16 ranges sequentially"
+	rep.Coverage["rule"] = "all interleavings within the preemption bound of 2-3 threads x 2 calls on one IDSequence (all ranges 0<=min<=max<=3 and 0xFFFE..0xFFFF), on one TransactionStore key per key space (also with transactions that remove themselves from the store when the store finishes the one it replaces), and on one ClientState; points at the shim mutex/atomic and at the guarded fields; every call/return history checked for linearizability with porcupine against a sequential reference; plus the full uint16 ranges sequentially"
 	rep.Assumptions = []string{"sequentially consistent memory"}
 	rep.Finish()
 }
